@@ -66,8 +66,35 @@ def add_violation(part: Dict[str, Any], fingerprint: str, what: str, case: Any, 
     vs = part["violations"]
     same = sum(1 for v in vs if v["fingerprint"] == fingerprint)
     count(part, "violation:" + fingerprint)
+    if fingerprint not in _open_fingerprints():
+        part["nviol"] = part.get("nviol", 0) + 1          # known findings never consume the violation budget
     if same < MAX_VIOLATIONS_PER_FP:
         vs.append({"fingerprint": fingerprint, "what": what, "case": jsonable(case), "detail": jsonable(detail)})
+
+
+CURRENT_PROP: Optional[str] = None        # set by mc.main
+_OPEN_FPS: Optional[frozenset] = None
+
+
+def _open_fingerprints() -> frozenset:
+    global _OPEN_FPS
+    if _OPEN_FPS is None:
+        _OPEN_FPS = frozenset(k["fingerprint"] for k in load_known()
+                              if k.get("status") == "open" and "fingerprint" in k and k.get("property") == CURRENT_PROP)
+    return _OPEN_FPS
+
+
+def over_budget(part: Dict[str, Any], limit: int = 150) -> bool:
+    """A shard that has already recorded `limit` violations stops exploring: the verdict is settled, and a change that makes
+    many cases expensive (non-terminating programs run to their step horizon) must not turn a 30 s check into a 10 min one.
+    Only ever true when there is something to report, so it cannot hide a violation or shrink a clean run."""
+    if part.get("nviol", 0) >= limit:
+        if not part.get("_budget_noted"):
+            part["_budget_noted"] = True
+            count(part, "shards-stopped-after-violation-budget")
+            part["notes"].append(f"a shard stopped exploring after {limit} violations (coverage counts of this run are partial)")
+        return True
+    return False
 
 
 def add_sample(part: Dict[str, Any], sample: Any) -> None:
